@@ -130,6 +130,7 @@ func main() {
 	keep := fl.Bool("keep", false, "keep the scratch directory")
 	noEvidence := fl.Bool("no-evidence", false, "do not write the evidence file")
 	raw := fl.Bool("uninstrumented", false, "cross-check: stage the library WITHOUT instrumentation (library goroutines run under the Go scheduler inside the bubble; only environment tasks are scheduled; not replayable; never writes evidence)")
+	noIso := fl.Bool("no-iso", false, "skip the isolated phase (diagnosis: what the bulk phase alone finds; implies --no-evidence)")
 	cover := fl.String("cover", "", "write merged library statement coverage of the simulated runs to this file and list blocks never executed (implies --no-evidence)")
 	fl.Parse(os.Args[2:])
 	coverOut = *cover
@@ -186,8 +187,11 @@ func main() {
 	if thorough {
 		isoN = 6000
 	}
-	if cfg.Engine != "pipesim" || rawMode {
+	if cfg.Engine != "pipesim" || rawMode || *noIso {
 		isoN = 0
+	}
+	if *noIso {
+		*noEvidence = true
 	}
 	isoOuts, isoFound := isolated(st, prop, seed, thorough, *workers, isoN)
 	var outs []*driver.WorkerOut
